@@ -202,7 +202,7 @@ def gen_case(rng, i, nprocs, safe, aggr, EC, roles_plan=None, known_hang=False):
                 if min(shape) > 0:
                     p.one_access("get", r, vid, [0] * len(shape), list(shape), [1] * len(shape), True, form="vara", mt=XT2MEM[v.xtype])
     p.close()
-    p.emit("*", "balance")
+    p.emit("*", "balance", final=1)
     env = {"PNETCDF_SAFE_MODE": "1"} if safe else {}
     return Case("c08_%05d" % i, nprocs, p.s.lines, env=env, timeout=(20 if known_hang else 120), meta={"expect": p.expect, "groups": g.groups, "feat": p.feat, "safe": safe, "aggr": aggr})
 
